@@ -147,11 +147,26 @@ func limCorpus() []LimCase {
 		{Max: 2, Rate: 20 * m, Ops: []LimOp{{K: "B", C: 1, N: 3}, {K: "B", C: 2, N: 2}, {K: "T", D: h + 11*m}, {K: "B", C: 1, N: 3}, {K: "A", C: 2}}},
 		// 64 simultaneous callers on one bucket
 		{Max: 5, Rate: s, Ops: []LimOp{{K: "B", C: 1, N: 64}, {K: "T", D: 2 * s}, {K: "B", C: 1, N: 64}}},
+		// a clean-up tick in the middle of an idle gap, at a fractional offset of the refill period: what was waited before it counts
+		{Max: 3, Rate: h, Ops: []LimOp{{K: "B", C: 1, N: 3}, {K: "T", D: h + 30*m}, {K: "T", D: 45 * m}, {K: "B", C: 1, N: 3}}},
+		{Max: 2, Rate: 25 * m, Ops: []LimOp{{K: "B", C: 1, N: 2}, {K: "T", D: 35 * m}, {K: "T", D: 20 * m}, {K: "A", C: 1}, {K: "A", C: 1}, {K: "A", C: 1}}},
+		// more distinct clients than any plausible table cap while one client is drained
+		limManyClients(10500),
 		// isolation between confusable addresses: one spends its burst, the other is new
 		{Max: 2, Rate: h, Ops: []LimOp{{K: "B", C: 100, N: 4}, {K: "A", C: 101}, {K: "A", C: 101}, {K: "A", C: 101}}},
 		{Max: 1, Rate: h, Ops: []LimOp{{K: "A", C: 102}, {K: "A", C: 103}, {K: "A", C: 104}, {K: "A", C: 105}, {K: "A", C: 106}, {K: "A", C: 107}, {K: "A", C: 108}, {K: "A", C: 109},
 			{K: "A", C: 110}, {K: "A", C: 111}, {K: "A", C: 112}, {K: "A", C: 113}}},
 	}
+}
+
+func limManyClients(n int) LimCase {
+	c := LimCase{Max: 2, Rate: int64(time.Hour)}
+	c.Ops = append(c.Ops, LimOp{K: "B", C: 1, N: 3})
+	for i := 0; i < n; i++ {
+		c.Ops = append(c.Ops, LimOp{K: "A", C: 1000 + i})
+	}
+	c.Ops = append(c.Ops, LimOp{K: "A", C: 1}, LimOp{K: "A", C: 1})
+	return c
 }
 
 func runLimCase(c LimCase) (coq string, stats map[string]int) {
